@@ -154,6 +154,7 @@ type Case struct {
 	EncForms         map[string]int // level -> 0 minimal, 1 indefinite, 2.. non-minimal with k = v-2
 	SIDVariant       issuer.NameVariant
 	NameStyle        int // 0 printable, 1 utf8, 2 bmp CN, 3 multi-valued RDN + extra attributes, 4 an attribute type repeated in separate RDNs (two OUs)
+	PoolKind         int // trust store object: 0 one pool via Add, 1 grown via AddCerts after a lookup, 2 CombinedCertPool of two pools, 3 the same with a lookup in between
 	HashOrder        int // data group hash list: 0 ascending, 1 descending, 2 rotated, 3 highest first
 	CardSecOwn       int // EF.CardSecurity: 0 signed like the SOD; 1 / 2 signed 400 days earlier / later by a DS certificate of its own whose validity does not contain the SOD's signing time
 	Extra            int // 0 none, 1 CSCA, 2 DS2 after, 3 DS2 before, 4 CSCA + DS2
@@ -336,6 +337,7 @@ func drawCase(ch chooser, fastBias bool) Case {
 	c.NameStyle = ch.Weighted("namestyle", 4, 2, 2, 2, 2)
 	c.CardSecOwn = ch.Weighted("cardsec-own-signer-and-time", 2, 1, 1)
 	c.HashOrder = ch.Weighted("hash-list-order", 3, 1, 1, 1)
+	c.PoolKind = ch.Weighted("trust-store-object", 3, 1, 1, 1)
 	c.Extra = ch.Weighted("extra", 3, 2, 2, 2, 1)
 	c.Store = ch.Weighted("store", 3, 2, 1, 2, 2, 1, 1, 1, 1)
 	c.CardSec = ch.Weighted("cardsec", 3, 1) == 1
@@ -443,6 +445,8 @@ type world struct {
 	sod        *issuer.SignedData
 	cardSec    *issuer.SignedData
 	cardSigner []byte // DS certificate of EF.CardSecurity when it is not the SOD's
+	poolKind   int    // how the trust store object is assembled (see verdict)
+	country    string
 	docDGs     map[int][]byte
 	store      [][]byte // trust store in order
 	acceptable [][]byte // anchors the chain may end in
@@ -506,7 +510,7 @@ func build(c Case, src issuer.Source) (*world, error) {
 	if err != nil {
 		return nil, err
 	}
-	w := &world{pki: pki}
+	w := &world{pki: pki, poolKind: c.PoolKind, country: c.Country}
 
 	// trust store arrangement
 	others := 0
@@ -736,11 +740,57 @@ func verdict(w *world) string {
 			return "NewCardSecurity rejects a genuine EF.CardSecurity: " + err.Error()
 		}
 	}
-	pool := &cms.GenericCertPool{}
-	for _, c := range w.store {
-		if err := pool.Add(c); err != nil {
-			return "trust store refuses a genuine CSCA certificate: " + err.Error()
+	// The same certificates, in the same order, in trust store objects put together in different ways:
+	// 0 one pool filled with Add; 1 one pool, first half via Add, a lookup on the half-filled pool, the
+	// rest via AddCerts (a store that grows while in use); 2 a CombinedCertPool of two pools splitting the
+	// list (master lists of two origins); 3 as 2 with a lookup between the AddCertPool calls
+	var pool cms.CertPool
+	mkGeneric := func(list [][]byte) (*cms.GenericCertPool, string) {
+		p := &cms.GenericCertPool{}
+		for _, c := range list {
+			if err := p.Add(c); err != nil {
+				return nil, "trust store refuses a genuine CSCA certificate: " + err.Error()
+			}
 		}
+		return p, ""
+	}
+	half := (len(w.store) + 1) / 2
+	switch w.poolKind {
+	case 1:
+		p, msg := mkGeneric(w.store[:half])
+		if msg != "" {
+			return msg
+		}
+		p.ByIssuerCountry(w.country)
+		p.BySKI([]byte{1, 2, 3})
+		rest, msg := mkGeneric(w.store[half:])
+		if msg != "" {
+			return msg
+		}
+		p.AddCerts(rest.All())
+		pool = p
+	case 2, 3:
+		a, msg := mkGeneric(w.store[:half])
+		if msg != "" {
+			return msg
+		}
+		b, msg := mkGeneric(w.store[half:])
+		if msg != "" {
+			return msg
+		}
+		cp := &cms.CombinedCertPool{}
+		cp.AddCertPool(a)
+		if w.poolKind == 3 {
+			cp.ByIssuerCountry(w.country)
+		}
+		cp.AddCertPool(b)
+		pool = cp
+	default:
+		p, msg := mkGeneric(w.store)
+		if msg != "" {
+			return msg
+		}
+		pool = p
 	}
 	res, err := passiveauth.PassiveAuth(&doc, pool)
 	if err != nil || res == nil || !res.Success {
@@ -824,7 +874,7 @@ func classes(c Case) []string {
 		fmt.Sprintf("ds-window:%d", c.DSWin), fmt.Sprintf("csca-window:%d", c.CSCAWin),
 		"encoding:" + encNames[c.Enc], "store:" + storeNames[c.Store], fmt.Sprintf("extra-certs:%d", c.Extra),
 		fmt.Sprintf("cardsec:%v", c.CardSec), fmt.Sprintf("econtenttype:%d", c.EType), fmt.Sprintf("attr-order:%d", c.AttrOrder),
-		fmt.Sprintf("name-style:%d", c.NameStyle),
+		fmt.Sprintf("name-style:%d", c.NameStyle), fmt.Sprintf("trust-store-object:%d", c.PoolKind),
 	}
 	if !c.SIDVariant.Identity() {
 		out = append(out, "sid-name-variant")
